@@ -11,7 +11,7 @@ use std::{
     time::Instant,
 };
 
-use ff::Field;
+use ff::{Field, PrimeField};
 use fscases::{Filler, PoseidonVarCase, RipemdCase, SOp, ShaVarCase, SpongeCase};
 use midnight_circuits::{
     hash::poseidon::{constants::PoseidonField, permutation_cpu, round_skips::PreComputedRoundCPU, PoseidonChip, PoseidonState},
